@@ -218,6 +218,14 @@ pub fn run_scenario_family(sc: &Scenario, panic_at: u32, family: u8) -> RunOut {
                     }
                     6 => v.extend(TickIter { vals: extra.clone().into_iter(), exact: sc.b & 1 == 0 }),
                     7 => v.extend_from_slice(&src),
+                    8 if sc.c & 1 == 1 => {
+                        // clone_from onto a non-empty destination of another length: the destination's old elements are
+                        // replaced while the user's Clone may panic
+                        let mut dst: BVec<E> = BVec::from_iter_in((0..(sc.b % 6) as u32).map(|i| E::new(500 + i)), b);
+                        dst.clone_from(&v);
+                        let _u = ledger::enter_user();
+                        drop(dst);
+                    }
                     8 => {
                         let c = v.clone();
                         let _u = ledger::enter_user();
